@@ -255,12 +255,28 @@ def eval_apply_deformation(case):
                 rows.append(vec)
                 res['evals'] += 1
                 for idx in (list(mask), np.array(mask)):
+                    keep = vec.tobytes()
                     got = gf2.vec_to_int(apply_deformation(idx, vec))
+                    if vec.tobytes() != keep and len(res['violations']) < 3:
+                        res['violations'].append({'key': {'part': 'apply_deformation',
+                                                          'kind': 'relabelling-modifies-its-argument'},
+                                                  'detail': {'mask': list(mask), 'n': n, 'shape': '1-D'}})
+                        vec = np.array(gf2.int_to_vec(e, 2 * n), dtype='uint8')
                     if got != permute_row(e, n, tables) and len(res['violations']) < 2:
                         res['violations'].append({'key': {'part': 'apply_deformation', 'kind': 'not-hadamard-on-index-set'},
                                                   'detail': {'op': gf2.int_to_pauli_string(e, n), 'mask': list(mask)}})
             M = np.array(rows, dtype='uint8')
+            before = M.tobytes()
             got = apply_deformation(list(mask), M)
+            again = apply_deformation(list(mask), M)
+            # the relabelling is a function of its argument: the stack handed in (e.g. a code's cached
+            # logicals) is left as it was, so relabelling the same stack twice gives the same image
+            if (M.tobytes() != before or not np.array_equal(got, again)) and len(res['violations']) < 3:
+                res['violations'].append({'key': {'part': 'apply_deformation',
+                                                  'kind': 'relabelling-modifies-its-argument'},
+                                          'detail': {'mask': list(mask), 'n': n}})
+                M = np.array(rows, dtype='uint8')
+                got = apply_deformation(list(mask), M.copy())
             if [gf2.vec_to_int(r) for r in got] != [permute_row(e, n, tables) for e in range(4 ** n)] \
                     and len(res['violations']) < 3:
                 res['violations'].append({'key': {'part': 'apply_deformation', 'kind': 'stack-not-hadamard-on-index-set'},
